@@ -1,6 +1,7 @@
 import CLModel.Model.Registry
 import CLModel.Gen.Verifier
 import CLModel.Model.Primary
+import CLModel.Model.Zn
 import CLModel.Proofs.NoPanic
 import CLModel.Proofs.NoPanicPrimary
 import Driver.PrimaryOps
@@ -187,7 +188,7 @@ open CL.Pri in
 theorem driver_group_never_panics (n : Int) (rust : Bool) : OpsNP (Drv.znOps n rust) := by
   have hinv : ∀ a, NP (Drv.modInv a n) := by
     intro a
-    unfold Drv.modInv
+    unfold Drv.modInv CL.Zn.modInv
     split
     · exact NP_err
     · simp only
@@ -199,6 +200,7 @@ theorem driver_group_never_panics (n : Int) (rust : Bool) : OpsNP (Drv.znOps n r
     show NP (if n == 0 then _ else if k < 0 then _ else _)
     refine NP_ite NP_err (NP_ite ?_ (NP_ok _))
     have := hinv g
+    change NP (match Drv.modInv g n with | .ok bi => _ | .err => _ | .panic => _)
     cases h : Drv.modInv g n with
     | ok bi => exact NP_ok _
     | err => exact NP_err
